@@ -65,6 +65,47 @@ def _lit(t, av, flags):
     return t == av
 
 
+def _c_lit(o, av, flags):
+    if flags & re.I:
+        ch = chr(av)
+        lo = ord(ch.lower()) if len(ch.lower()) == 1 else av
+        up = ord(ch.upper()) if len(ch.upper()) == 1 else av
+        return o in (av, lo, up)
+    return o == av
+
+
+def _c_cat(cat, o):
+    if cat == C.CATEGORY_DIGIT:
+        return 48 <= o <= 57
+    if cat == C.CATEGORY_NOT_DIGIT:
+        return not (48 <= o <= 57)
+    if cat == C.CATEGORY_SPACE:
+        return o in (9, 10, 11, 12, 13, 32, 28, 29, 30, 31, 0x85, 0xA0)
+    if cat == C.CATEGORY_NOT_SPACE:
+        return not _c_cat(C.CATEGORY_SPACE, o)
+    if cat == C.CATEGORY_WORD:
+        return 48 <= o <= 57 or 65 <= o <= 90 or 97 <= o <= 122 or o == 95
+    if cat == C.CATEGORY_NOT_WORD:
+        return not _c_cat(C.CATEGORY_WORD, o)
+    raise Unsupported(f"category {cat}")
+
+
+def _c_in(items, o, flags):
+    """concrete twin of _in_term (same ASCII-restricted categories: a disagreement with `re` on exotic code points is
+    caught by the per-match validation and aborts the path as a harness error)"""
+    neg, hit = False, False
+    for op, av in items:
+        if op == C.NEGATE:
+            neg = True
+        elif op == C.LITERAL:
+            hit = hit or _c_lit(o, av, flags)
+        elif op == C.RANGE:
+            hit = hit or av[0] <= o <= av[1]
+        elif op == C.CATEGORY:
+            hit = hit or _c_cat(av, o)
+    return (not hit) if neg else hit
+
+
 class _Matcher:
     """Concolic backtracking matcher: mirrors `re`'s search order on the concrete string and records every
     character test it performs as a branch (so the path condition is exactly the set of tests the engine made)."""
@@ -74,13 +115,12 @@ class _Matcher:
         self.n = len(terms)
         self.sub = [(t, z3.IntVal(ord(ch))) for t, ch in zip(terms, conc) if not z3.is_int_value(t)]
 
-    def test(self, cond):
+    def test(self, cond, concrete):
+        """record the character test; `concrete` is its truth on the concrete string (computed in Python, not via z3)"""
         cond = z3.simplify(cond)
-        if z3.is_true(cond):
-            return True
-        if z3.is_false(cond):
-            return False
-        return branch(cond, _ceval(cond, self.sub))
+        if z3.is_true(cond) or z3.is_false(cond):
+            return z3.is_true(cond)
+        return branch(cond, concrete)
 
     def seq(self, nodes, pos, groups):
         """yield (endpos, groups) for matching the node sequence at pos, in backtracking priority order"""
@@ -114,14 +154,14 @@ class _Matcher:
                 if pos == 0:
                     ok = True
                 elif av == C.AT_BEGINNING and (self.flags & re.M):
-                    ok = self.test(self.terms[pos - 1] == 10)
+                    ok = self.test(self.terms[pos - 1] == 10, self.conc[pos - 1] == "\n")
             elif av == C.AT_END:
                 if pos == self.n:
                     ok = True
                 elif self.flags & re.M:
-                    ok = self.test(self.terms[pos] == 10)
+                    ok = self.test(self.terms[pos] == 10, self.conc[pos] == "\n")
                 elif pos == self.n - 1:
-                    ok = self.test(self.terms[pos] == 10)
+                    ok = self.test(self.terms[pos] == 10, self.conc[pos] == "\n")
             elif av == C.AT_END_STRING:
                 ok = pos == self.n
             else:
@@ -133,17 +173,18 @@ class _Matcher:
         if pos >= self.n:
             return
         t = self.terms[pos]
+        o = ord(self.conc[pos])
         if op == C.LITERAL:
-            c = _lit(t, av, self.flags)
+            c, cc = _lit(t, av, self.flags), _c_lit(o, av, self.flags)
         elif op == C.NOT_LITERAL:
-            c = z3.Not(_lit(t, av, self.flags))
+            c, cc = z3.Not(_lit(t, av, self.flags)), not _c_lit(o, av, self.flags)
         elif op == C.IN:
-            c = _in_term(av, t, self.flags)
+            c, cc = _in_term(av, t, self.flags), _c_in(av, o, self.flags)
         elif op == C.ANY:
-            c = z3.BoolVal(True) if self.flags & re.S else (t != 10)
+            c, cc = (z3.BoolVal(True), True) if self.flags & re.S else ((t != 10), o != 10)
         else:
             raise Unsupported(f"op {op}")
-        if self.test(c):
+        if self.test(c, cc):
             yield from self.seq(rest, pos + 1, groups)
 
     def repeat(self, sub, lo, hi, greedy, rest, pos, groups, count):
